@@ -97,15 +97,16 @@ def run(ck):
         if rng.random() < 0.3:
             o[rng.choice(["ftol", "xtol", "gtol"])] = rng.choice([1e-6, 1e-10, 1e-12])
         if rng.random() < 0.3:
-            o["method"] = rng.choice(["trf", "dogbox"])
+            # (method='dogbox' stays out: when the residuals become NaN scipy's dogbox keeps calling numpy.linalg.lstsq on a NaN Jacobian -
+            #  LAPACK "DLASCL parameter 4 illegal", seconds per iteration - until max_nfev: one fit then takes over an hour (seen at
+            #  PGV_BOOST=2 VERIF_SEED=2); a property of scipy, no clause of C12 is about it)
+            o["method"] = "trf"
         if rng.random() < 0.2:
             o["x_scale"] = "jac"
         if rng.random() < 0.2:
             o["jac"] = rng.choice(["2-point", "3-point"])
         if rng.random() < 0.15:
-            o["tr_solver"] = rng.choice(["exact", "lsmr"])
-            if o["tr_solver"] == "lsmr" and one_param:
-                o["method"] = "dogbox"
+            o["tr_solver"] = "exact" if one_param else rng.choice(["exact", "lsmr"])
         if rng.random() < 0.15:
             o["verbose"] = 0
         return o or None
